@@ -556,6 +556,7 @@ def memory_snapshot(li):
         for pos, eflr in lf.eflrs:
             ent['numbers'].append([[[(('float' if isinstance(v, float) else 'int'), v) if isinstance(v, (int, float)) and not isinstance(v, bool)
                                       else (('bytes', v) if isinstance(v, bytes) else None) for v in (a.value or [])] if a is not None else None for a in obj.attrs] for obj in eflr.objects])
+            ent.setdefault('units', []).append([[(a.units if a is not None else None) for a in obj.attrs] for obj in eflr.objects])
             ent['eflr_pos'].append(pos.lrsh_position)
             ent['set_types'].append(eflr.set.type)
             by.add(eflr.set.type)
@@ -711,6 +712,29 @@ def numbers_check(k, eflrs, numbers):
     return []
 
 
+def units_check(k, eflrs, units):
+    """The units written for the attributes of one object tell apart what the in-memory index tells apart: two attributes of an
+    object whose units differ in memory are not written with the same units text (no particular spelling is demanded)."""
+    for e, objs in zip(eflrs, units):
+        obj_els = e.elements('Object')
+        if len(obj_els) != len(objs):
+            continue
+        for oe, attrs in zip(obj_els, objs):
+            attr_els = oe.elements('Attribute')
+            if len(attr_els) != len(attrs):
+                continue
+            seen = {}
+            for ae, u in zip(attr_els, attrs):
+                if u is None:
+                    continue
+                text = ae.attrs.get('units')
+                other = seen.setdefault(text, u)
+                if other != u:
+                    return [({'kind': 'index_units_confused'}, 'logical file %d: attributes with units %r and %r in memory are both written with units=%r'
+                             % (k, other, u, text))]
+    return []
+
+
 def check_index_document(root, snap, expect):
     """root: parsed RP66V1FileIndex; snap: memory_snapshot; expect: {'tables': [n per logical file], 'types': [...], 'frames': [...]} or None."""
     bad = []
@@ -736,6 +760,7 @@ def check_index_document(root, snap, expect):
             if pos is not None and pos != mem['eflr_pos']:
                 bad.append(({'kind': 'eflr_position'}, 'logical file %d: EFLR positions %r, index holds %r' % (k, pos, mem['eflr_pos'])))
             bad += numbers_check(k, eflrs, mem['numbers'])
+            bad += units_check(k, eflrs, mem.get('units', []))
         lp = el.find('LogPass')
         fas = lp.elements('FrameArray') if lp is not None else []
         ntypes = len(mem['fas']) if mem['has_log_pass'] else 0
@@ -1172,6 +1197,26 @@ def run_case_svg(case):
     except Exception as err:  # noqa
         return [({'kind': 'writer_raises', 'exc': type(err).__name__, 'op': 'svg_shared_attrs', 'writer': 'SVGWriter'},
                  'SVGWriter: %s: %s' % (type(err).__name__, err))], h64(('raise', type(err).__name__)), 'raises'
+    # a document written to a path that already holds a longer one: the file is the new document, nothing of the old one
+    path = os.path.join(scratch_dir(), 'over.svg')
+    try:
+        for repeat in (40, 1):
+            with SVGWriter.SVGWriter(path, Coord.Box(dim(8.5), dim(11))) as w:
+                for _ in range(repeat):
+                    with SVGWriter.SVGLine(w, pt, Coord.Pt(dim(2), dim(3)), dict(attrs)):
+                        pass
+        with open(path, 'rb') as f:
+            on_disc = f.read()
+        o = io.StringIO()
+        with SVGWriter.SVGWriter(o, Coord.Box(dim(8.5), dim(11))) as w:
+            with SVGWriter.SVGLine(w, pt, Coord.Pt(dim(2), dim(3)), dict(attrs)):
+                pass
+        if on_disc.decode('utf-8', 'replace') != o.getvalue():
+            bad.append(({'kind': 'file_written_over_a_longer_one_differs', 'writer': 'SVGWriter'},
+                        'a one-line document written to a path that held a 40-line one: the file has %d bytes, the document %d; the file ends %r'
+                        % (len(on_disc), len(o.getvalue().encode('utf-8')), on_disc[-60:])))
+    except Exception as err:  # noqa
+        bad.append(({'kind': 'writer_raises', 'exc': type(err).__name__, 'op': 'svg_to_path', 'writer': 'SVGWriter'}, 'SVGWriter to a path: %s: %s' % (type(err).__name__, err)))
     if d_shared != d_fresh or mine != attrs:
         bad.append(({'kind': 'svg_attributes_depend_on_earlier_elements', 'writer': 'SVGWriter'},
                     'one attribute dictionary %r passed to every element: it comes back as %r and the document differs from the one '
